@@ -548,6 +548,37 @@ impl Storage {
         batch.commit().expect("batch commit should be ok");
     }
 
+    /// Adds the matched blocks of a filtered range and moves the filter progress to the end of
+    /// that range in one write: after a crash the range is either pending and counted as
+    /// filtered, or neither.
+    pub fn add_matched_blocks_and_update_min_filtered_block_number(
+        &self,
+        start_number: u64,
+        blocks_count: u64,
+        // (block-hash, proved)
+        matched_blocks: Vec<(Byte32, bool)>,
+        min_filtered_block_number: BlockNumber,
+    ) {
+        assert!(!matched_blocks.is_empty());
+        let mut key = Key::Meta(MATCHED_FILTER_BLOCKS_KEY).into_vec();
+        key.extend(start_number.to_be_bytes());
+
+        let mut value = blocks_count.to_le_bytes().to_vec();
+        for (block_hash, proved) in matched_blocks {
+            value.extend(block_hash.as_slice());
+            value.push(u8::from(proved));
+        }
+        let mut batch = self.batch();
+        batch.put(key, value).expect("batch put should be ok");
+        batch
+            .put_kv(
+                Key::Meta(MIN_FILTERED_BLOCK_NUMBER),
+                min_filtered_block_number.to_le_bytes().as_slice(),
+            )
+            .expect("batch put should be ok");
+        batch.commit().expect("batch commit should be ok");
+    }
+
     /// the matched blocks must not empty
     pub fn add_matched_blocks(
         &self,
